@@ -76,7 +76,7 @@ CONTRACTS = [
              modifies=["g_row_pending", "g_row_ident", "g_row_version"],
              ensures=["g_row_pending", "g_row_ident == task_identifier", "g_row_version == version"],
              trusted_reason="A-SQL: INSERT inside an implicit transaction (invisible until commit)"),
-    Contract("execution/version_index.py::VersionIndex.commit_changes", extern=True,
+    Contract("ext::VersionIndex.commit_changes(finish)",
              requires=[C("commit_only_what_is_ready", "implies(g_row_pending, g_ready_to_record)", "C06")],
              modifies=["g_row_pending", "g_row_committed"],
              ensures=["g_row_committed == (old(g_row_committed) or old(g_row_pending))", "not g_row_pending"],
@@ -117,7 +117,8 @@ CONTRACTS = [
     # ------------------------------------------------------------------ finish_execution
     Contract(F + "::RunTaskExecutable.finish_execution", params={"handle": "OperationExecutionHandle", "ctx": "Context"},
              props=["C06", "C10", "C01", "C03", "C16"], abortable=True,
-             prefer_ext={"RunArguments.serialize_json": "RunArguments.serialize_json", "RunOptions.serialize_json": "RunOptions.serialize_json"},
+             prefer_ext={"RunArguments.serialize_json": "RunArguments.serialize_json", "RunOptions.serialize_json": "RunOptions.serialize_json",
+                         "VersionIndex.commit_changes": "VersionIndex.commit_changes(finish)"},
              uses=["path_join_injective"],
              requires=[C("nothing_pending", "not g_row_pending and not g_ready_to_record"),
                        C("handle_of_a_reaped_process", "handle.stdout is not None and handle.stderr is not None and handle.returncode is not None"),
